@@ -1,1 +1,872 @@
-"""Node-side program generator (see DESIGN 2.1)."""
+"""Node-side typed program generator (DESIGN 2.1).
+
+The planner runs inside a salt-0 node.  It *executes* every candidate op through the
+ordinary op interpreter only to learn history-independent facts (does it build? which
+shape / free indices / rank?) and emits the op list.  All choices come from one PRNG, so
+a plan is a pure function of its seed and configuration.  The objects are thrown away.
+
+Slots: ints handed out sequentially from ``base``.
+"""
+
+import random
+
+import ufl
+from ufl.core.expr import Expr
+from ufl.form import BaseForm, Form
+
+from sim import ops as simops
+
+CELLS = {"interval": 1, "triangle": 2, "tetrahedron": 3, "quadrilateral": 2}
+GEO_SCALAR = ["CellVolume", "Circumradius", "FacetArea", "CellDiameter", "MinFacetEdgeLength", "MaxFacetEdgeLength", "MinCellEdgeLength", "MaxCellEdgeLength"]
+GEO_OTHER = ["SpatialCoordinate", "FacetNormal", "Jacobian", "JacobianDeterminant", "JacobianInverse", "CellNormal"]
+MATH1 = ["sin", "cos", "exp", "sqrt", "ln", "tanh", "atan", "erf", "sinh", "cosh"]
+CFD_FLAGS = [
+    "do_apply_function_pullbacks",
+    "do_apply_integral_scaling",
+    "do_apply_geometry_lowering",
+    "do_cancel_jacobian_products",
+    "do_apply_default_restrictions",
+    "do_apply_restrictions",
+    "do_estimate_degrees",
+    "do_append_everywhere_integrals",
+    "do_replace_functions",
+    "complex_mode",
+    "do_remove_component_tensors",
+]
+
+
+class Planner:
+    def __init__(self, seed, cfg, repo):
+        self.rng = random.Random(seed)
+        self.cfg = cfg
+        self.node = simops.Node(repo)
+        from sim import nodeext
+
+        nodeext.install(self.node)
+        self.ops = []
+        self.next = cfg.get("base", 1)
+        self.info = {}
+        self.stats = {"emitted": 0, "rejected": 0}
+        self.meshes = []  # dicts: slot, cell, tdim, gdim, spaces, terms ...
+        self.forms = []  # (slot, rank, mesh index)
+        self.derived = []
+        self.exprs = []  # interesting expression slots (for pools)
+        self.dicts = []
+        self.fam = cfg.get("families", {})
+
+    # ---------------------------------------------------------------- emission
+    def new(self):
+        s = self.next
+        self.next += 1
+        return s
+
+    def obj(self, slot):
+        return self.node.slots[slot]
+
+    def emit(self, op, keep_failed=False, kind=None):
+        """Execute op in the planner's node; record it if it succeeds."""
+        r = self.node.run(op)
+        ok = "ok" in r
+        if ok or keep_failed:
+            self.ops.append(op)
+            self.stats["emitted"] += 1
+            out = op[1] if len(op) > 1 and isinstance(op[1], int) else None
+            if ok and out is not None and out in self.node.slots:
+                self.info[out] = self.describe(self.node.slots[out], kind)
+        else:
+            self.stats["rejected"] += 1
+        return ok
+
+    def describe(self, o, kind=None):
+        d = {}
+        if isinstance(o, Expr):
+            d["k"] = kind or "expr"
+            try:
+                d["shape"] = list(o.ufl_shape)
+                d["nfi"] = len(o.ufl_free_indices)
+            except Exception:
+                d["k"] = "exprlike"
+        elif isinstance(o, Form):
+            d["k"] = kind or "form"
+            try:
+                d["rank"] = len(o.arguments())
+                d["nint"] = len(o.integrals())
+            except BaseException:
+                d["rank"] = -1
+        elif isinstance(o, BaseForm):
+            d["k"] = kind or "baseform"
+        elif isinstance(o, dict):
+            d["k"] = "dict"
+        else:
+            d["k"] = kind or type(o).__name__
+        return d
+
+    def call(self, fname, *args, kind=None, keep_failed=False, **kw):
+        out = self.new()
+        op = ["call", out, fname, list(args)]
+        if kw:
+            op.append(kw)
+        if self.emit(op, keep_failed=keep_failed, kind=kind) and out in self.node.slots:
+            return out
+        return None
+
+    @staticmethod
+    def ref(s):
+        return ["$", s]
+
+    def lit_tuple(self, t):
+        return ["t"] + list(t)
+
+    # ---------------------------------------------------------------- environment
+    def elem(self, family, cell, degree, shape, pb="identity_pullback", sob="H1"):
+        return self.call(
+            "sim.elements.Elem", family, ["cell", cell], degree, self.lit_tuple(shape), ["pb", pb], ["sob", sob], kind="elem"
+        )
+
+    def env(self):
+        r = self.rng
+        nm = self.cfg.get("n_meshes")
+        if nm is None:
+            nm = r.choice([1, 1, 1, 2, 2, 3])
+        cell = r.choice(["interval", "triangle", "triangle", "tetrahedron", "quadrilateral"])
+        tdim = CELLS[cell]
+        gdim = tdim if r.random() < 0.8 or tdim == 3 else tdim + 1
+        for mi in range(nm):
+            if mi > 0 and r.random() < 0.25:
+                cell = r.choice(["interval", "triangle", "tetrahedron"])
+                tdim = CELLS[cell]
+                gdim = tdim
+            cdeg = r.choice([1, 1, 2])
+            ce = self.elem("Lagrange", cell, cdeg, (gdim,))
+            mesh = self.call("ufl.Mesh", self.ref(ce), kind="mesh")
+            M = {"slot": mesh, "cell": cell, "tdim": tdim, "gdim": gdim, "spaces": [], "terms": [], "consts": [], "coefs": [], "geos": [], "args": {}}
+            specs = [("P", 1, ()), ("P", 2, ()), ("P", 1, (gdim,)), ("P", 2, (gdim,)), ("P", 1, (gdim, gdim))]
+            if r.random() < 0.5:
+                specs.append(("DP", 0, ()))
+            if tdim > 1 and tdim == gdim and cell != "quadrilateral":
+                specs.append(("RT", 1, (tdim,)))
+                specs.append(("N1curl", 1, (tdim,)))
+            r.shuffle(specs)
+            specs = specs[: r.randint(2, len(specs))]
+            elems = []
+            for fam, k, sh in specs:
+                if fam == "P":
+                    e = self.elem("Lagrange", cell, k, sh)
+                elif fam == "DP":
+                    e = self.elem("Discontinuous Lagrange", cell, k, sh, sob="L2")
+                elif fam == "RT":
+                    e = self.elem("Raviart-Thomas", cell, k, sh, pb="contravariant_piola", sob="HDiv")
+                else:
+                    e = self.elem("N1curl", cell, k, sh, pb="covariant_piola", sob="HCurl")
+                elems.append((e, sh if fam in ("P", "DP") else (gdim,)))
+            if r.random() < 0.4 and len(elems) >= 2:
+                a, b = r.sample(elems, 2)
+                me = self.call("sim.elements.MixedElem", [self.ref(a[0]), self.ref(b[0])], kind="elem")
+                if me is not None:
+                    elems.append((me, None))
+            if r.random() < 0.2 and gdim == 2:
+                p1 = self.elem("Lagrange", cell, 1, ())
+                sym = ["d", [[["t", 0, 0], 0], [["t", 0, 1], 1], [["t", 1, 0], 1], [["t", 1, 1], 2]]]
+                se = self.call("sim.elements.SymElem", sym, [self.ref(p1), self.ref(p1), self.ref(p1)], kind="elem")
+                if se is not None:
+                    elems.append((se, None))
+            for e, _ in elems:
+                sp = self.call("ufl.FunctionSpace", self.ref(mesh), self.ref(e), kind="space")
+                if sp is not None:
+                    M["spaces"].append(sp)
+            self.meshes.append(M)
+        for M in self.meshes:
+            self.terminals(M)
+
+    def terminals(self, M):
+        r = self.rng
+        nco = self.cfg.get("n_coef") or r.randint(1, 4)
+        for _ in range(nco):
+            c = self.call("ufl.Coefficient", self.ref(r.choice(M["spaces"])), kind="coef")
+            if c is not None:
+                M["coefs"].append(c)
+                M["terms"].append(c)
+        ncs = self.cfg.get("n_const")
+        if ncs is None:
+            ncs = r.randint(0, 4)
+        g = M["gdim"]
+        for _ in range(ncs):
+            sh = r.choice([(), (), (), (g,), (g, g)])
+            c = self.call("ufl.Constant", self.ref(M["slot"]), self.lit_tuple(sh), kind="const")
+            if c is not None:
+                M["consts"].append(c)
+                M["terms"].append(c)
+        x = self.call("ufl.SpatialCoordinate", self.ref(M["slot"]), kind="geo")
+        M["x"] = x
+        M["terms"].append(x)
+        M["geos"].append(x)
+        for name in r.sample(GEO_SCALAR, r.randint(0, 3)):
+            gq = self.call("ufl." + name, self.ref(M["slot"]), kind="geo")
+            if gq is not None:
+                M["terms"].append(gq)
+                M["geos"].append(gq)
+        if r.random() < 0.5:
+            n = self.call("ufl.FacetNormal", self.ref(M["slot"]), kind="geo")
+            if n is not None:
+                M["terms"].append(n)
+                M["geos"].append(n)
+        if r.random() < 0.15:
+            gq = self.call("ufl." + r.choice(["Jacobian", "JacobianDeterminant", "JacobianInverse"]), self.ref(M["slot"]), kind="geo")
+            if gq is not None:
+                M["terms"].append(gq)
+        V = r.choice(M["spaces"])
+        M["V"] = V
+        M["v"] = self.call("ufl.TestFunction", self.ref(V), kind="arg")
+        M["u"] = self.call("ufl.TrialFunction", self.ref(V), kind="arg")
+
+    # ---------------------------------------------------------------- expressions
+    def shape(self, s):
+        return tuple(self.obj(s).ufl_shape)
+
+    def nfi(self, s):
+        return len(self.obj(s).ufl_free_indices)
+
+    def lit(self):
+        r = self.rng
+        v = r.choice([0, 1, 2, -1, 3, 0.5, 2.0, -1.5, 10, 1e-3, 7, 100])
+        if r.random() < 0.04:
+            v = ["c", 1.5, -0.5]
+        return self.call("ufl.as_ufl", v)
+
+    def terminal(self, M):
+        r = self.rng
+        if r.random() < 0.12:
+            t = self.lit()
+            if t is not None:
+                return t
+        return r.choice(M["terms"])
+
+    def scalar(self, M, depth):
+        """A scalar-valued index-free expression slot (or None)."""
+        r = self.rng
+        e = self.expr(M, depth)
+        for _ in range(4):
+            if e is None:
+                return None
+            o = self.obj(e)
+            if not isinstance(o, Expr):
+                return None
+            sh = o.ufl_shape
+            if o.ufl_free_indices:
+                return None
+            if sh == ():
+                return e
+            k = r.random()
+            if len(sh) == 1:
+                if k < 0.5:
+                    e = self.call("operator.getitem", self.ref(e), r.randrange(sh[0]))
+                else:
+                    e = self.call("ufl.dot", self.ref(e), self.ref(e))
+            elif len(sh) == 2:
+                c = r.randrange(4)
+                if c == 0 and sh[0] == sh[1]:
+                    e = self.call("ufl.tr", self.ref(e))
+                elif c == 1:
+                    e = self.call("ufl.inner", self.ref(e), self.ref(e))
+                elif c == 2 and sh[0] == sh[1] and sh[0] <= 3:
+                    e = self.call("ufl.det", self.ref(e))
+                else:
+                    e = self.call("operator.getitem", self.ref(e), ["t", r.randrange(sh[0]), r.randrange(sh[1])])
+            else:
+                e = self.call("operator.getitem", self.ref(e), ["t"] + [0] * len(sh))
+        return e if e is not None and self.shape(e) == () and not self.nfi(e) else None
+
+    def expr(self, M, depth):
+        r = self.rng
+        if depth <= 0 or r.random() < 0.15:
+            return self.terminal(M)
+        for _ in range(3):
+            e = self._op(M, depth)
+            if e is not None and isinstance(self.obj(e), Expr):
+                return e
+        return self.terminal(M)
+
+    def _op(self, M, depth):
+        r = self.rng
+        g = M["gdim"]
+        k = r.randrange(30)
+        if k >= 27 and self.fam.get("flat", True):
+            return self.flat(M)
+        a = self.expr(M, depth - 1)
+        if a is None:
+            return None
+        A = self.ref(a)
+        sh = self.shape(a)
+        if k == 0:
+            b = self.expr(M, depth - 1)
+            if b is not None and self.shape(b) == sh and self.nfi(a) == self.nfi(b) == 0:
+                return self.call("operator.add", A, self.ref(b))
+            return self.call("operator.add", A, A)
+        if k == 1:
+            s = self.scalar(M, depth - 1)
+            return self.call("operator.mul", self.ref(s) if s is not None else 2, A)
+        if k == 2:
+            s = self.scalar(M, depth - 1)
+            return self.call("operator.truediv", A, self.ref(s) if s is not None else 2)
+        if k == 3:
+            return self.call("operator.neg", A)
+        if k == 4:
+            s = self.scalar(M, depth - 1)
+            if s is None:
+                return None
+            return self.call("operator.pow", self.ref(s), r.choice([2, 3, 0.5, -1]))
+        if k == 5:
+            s = self.scalar(M, depth - 1)
+            if s is None:
+                return None
+            return self.call("ufl." + r.choice(MATH1 + ["abs_"]).replace("abs_", "algebra.Abs"), self.ref(s))
+        if k == 6:
+            return self.call("ufl.grad", A)
+        if k == 7:
+            return self.call("ufl.div", A) if len(sh) >= 1 else self.call("ufl.grad", A)
+        if k == 8:
+            b = self.expr(M, depth - 1)
+            if b is not None and self.shape(b) == sh:
+                return self.call("ufl.inner", A, self.ref(b))
+            return self.call("ufl.inner", A, A)
+        if k == 9:
+            b = self.expr(M, depth - 1)
+            if b is None:
+                return None
+            return self.call("ufl.dot", A, self.ref(b))
+        if k == 10:
+            b = self.expr(M, depth - 1)
+            if b is None or len(sh) + len(self.shape(b)) > 3:
+                return None
+            return self.call("ufl.outer", A, self.ref(b))
+        if k == 11:
+            if not sh:
+                return a
+            return self.call("operator.getitem", A, ["t"] + [r.randrange(n) for n in sh])
+        if k == 12:
+            if len(sh) == 2:
+                i = self.call("ufl.Index", kind="index")
+                j = self.call("ufl.Index", kind="index")
+                ij = self.call("operator.getitem", A, ["t", self.ref(i), self.ref(j)])
+                if ij is None:
+                    return None
+                return self.call("ufl.as_tensor", self.ref(ij), ["t", self.ref(j), self.ref(i)])
+            if len(sh) == 1:
+                i = self.call("ufl.Index", kind="index")
+                ai = self.call("operator.getitem", A, self.ref(i))
+                if ai is None:
+                    return None
+                ai2 = self.call("operator.mul", 2, self.ref(ai))
+                return self.call("ufl.as_tensor", self.ref(ai2), ["t", self.ref(i)])
+            return a
+        if k == 13:
+            if len(sh) == 2 and sh[0] == sh[1]:
+                fs = ["tr", "dev", "sym", "skew", "transpose", "det", "inv", "cofac", "diag"] if sh[0] <= 3 else ["tr", "sym", "transpose"]
+                return self.call("ufl." + r.choice(fs), A)
+            return a
+        if k == 14:
+            s1 = self.scalar(M, depth - 1)
+            s2 = self.scalar(M, depth - 1)
+            b = self.expr(M, depth - 1)
+            if s1 is None or s2 is None or b is None or self.shape(b) != sh or self.nfi(a) or self.nfi(b):
+                return None
+            c = self.call("ufl." + r.choice(["lt", "gt", "le", "ge", "eq", "ne"]), self.ref(s1), self.ref(s2))
+            if c is None:
+                return None
+            return self.call("ufl.conditional", self.ref(c), A, self.ref(b))
+        if k == 15:
+            va = self.call("ufl.variable", A)
+            if va is None:
+                return None
+            if sh:
+                f = self.call("ufl.inner", self.ref(va), self.ref(va))
+            else:
+                f = self.call("operator.pow", self.ref(va), 2)
+            if f is None:
+                return None
+            return self.call("ufl.diff", self.ref(f), self.ref(va))
+        if k == 16:
+            n = r.randint(1, 3)
+            comps = [self.scalar(M, depth - 1) for _ in range(n)]
+            if any(c is None for c in comps):
+                return None
+            return self.call("ufl.as_vector", [self.ref(c) for c in comps])
+        if k == 17:
+            if len(sh) >= 1:
+                b = self.expr(M, depth - 1)
+                if b is None:
+                    return None
+                bsh = self.shape(b)
+                if bsh and bsh[0] == sh[0]:
+                    i = self.call("ufl.Index", kind="index")
+                    ai = self.call("operator.getitem", A, ["t", self.ref(i)] + [0] * (len(sh) - 1))
+                    bi = self.call("operator.getitem", self.ref(b), ["t", self.ref(i)] + [0] * (len(bsh) - 1))
+                    if ai is None or bi is None:
+                        return None
+                    return self.call("operator.mul", self.ref(ai), self.ref(bi))
+            return None
+        if k == 18:
+            out = self.new()
+            if self.emit(["meth", out, A, "dx", [r.randrange(g)]]):
+                return out
+            return None
+        if k == 19:
+            if sh == (3,):
+                b = self.expr(M, depth - 1)
+                if b is not None and self.shape(b) == (3,):
+                    return self.call("ufl.cross", A, self.ref(b))
+                return self.call("ufl.curl", A)
+            return None
+        if k == 20:
+            b = self.expr(M, depth - 1)
+            if b is not None and self.shape(b) == sh and not self.nfi(a) and not self.nfi(b):
+                return self.call("operator.sub", A, self.ref(b))
+            return None
+        if k == 21:
+            s1 = self.scalar(M, depth - 1)
+            s2 = self.scalar(M, depth - 1)
+            if s1 is None or s2 is None:
+                return None
+            return self.call("ufl." + r.choice(["max_value", "min_value"]), self.ref(s1), self.ref(s2))
+        if k == 22:
+            return self.call("ufl.nabla_grad", A)
+        if k == 23:
+            if len(sh) == 2:
+                return self.call("ufl.transpose", A)
+            if len(sh) == 1:
+                return self.call("ufl.outer", A, A)
+            return None
+        if k == 24:
+            s = self.scalar(M, depth - 1)
+            if s is None:
+                return None
+            return self.call("ufl." + r.choice(["sign", "real", "imag", "conj"]), self.ref(s))
+        if k == 25:
+            # a second occurrence of an existing sub-expression (DAG sharing)
+            if self.exprs:
+                return r.choice(self.exprs)
+            return a
+        if k == 26:
+            b = self.expr(M, depth - 1)
+            if b is None or self.shape(b) != sh or not sh:
+                return None
+            return self.call("ufl." + r.choice(["elem_mult", "elem_div"]), A, self.ref(b))
+        return a
+
+    # ------------------------------------------------------ targeted families (DESIGN 2.1)
+    def flat(self, M):
+        """Flat commutative family: sums / products of 2-4 bare scalar terminals of the
+        same kind, possibly from different meshes - the only place where a creation count
+        can decide operand order."""
+        r = self.rng
+        pools = []
+        allM = self.meshes
+        consts = [c for m in allM for c in m["consts"] if self.shape(c) == ()]
+        coefs = [c for m in allM for c in m["coefs"] if self.shape(c) == ()]
+        geos = [q for m in allM for q in m["geos"] if self.shape(q) == ()]
+        for p in (consts, coefs, geos, consts + geos, consts + coefs):
+            if len(p) >= 2:
+                pools.append(p)
+        if not pools:
+            return None
+        p = r.choice(pools)
+        picks = r.sample(p, min(len(p), r.randint(2, 4)))
+        e = picks[0]
+        opn = r.choice(["mul", "add", "mix"])
+        for q in picks[1:]:
+            f = opn if opn != "mix" else r.choice(["mul", "add"])
+            e = self.call("operator." + f, self.ref(e), self.ref(q))
+            if e is None:
+                return None
+        return e
+
+    # ---------------------------------------------------------------- forms
+    def metadata(self):
+        r = self.rng
+        k = r.random()
+        if k < 0.45:
+            return None
+        if k < 0.6 and self.dicts:
+            return self.ref(r.choice(self.dicts))  # shared dict object (aliasing)
+        md = r.choice(
+            [
+                {"quadrature_degree": r.choice([1, 2, 3])},
+                {"quadrature_rule": "default", "quadrature_degree": 2},
+                {"quadrature_degree": 2, "quadrature_rule": "default"},
+                {"opt": True, "quadrature_degree": r.choice([2, 4]), "name": "k"},
+                {"a": 1, "b": [1, 2], "c": {"x": 1.5}},
+            ]
+        )
+        out = self.new()
+        if self.emit(["lit", out, md], kind="dict"):
+            self.dicts.append(out)
+            return self.ref(out)
+        return None
+
+    def measure(self, M, kinds=("dx", "dx", "dx", "ds", "dS")):
+        r = self.rng
+        kind = r.choice(kinds)
+        kw = {"domain": self.ref(M["slot"])}
+        sid = r.choice(["everywhere", "everywhere", 1, 2, ["t", 1, 2], "otherwise"])
+        if sid != "everywhere":
+            kw["subdomain_id"] = sid
+        md = self.metadata()
+        if md is not None:
+            kw["metadata"] = md
+        m = self.call("ufl.Measure", kind, kind="measure", **kw)
+        if m is not None and r.random() < 0.15:
+            out = self.new()
+            if self.emit(["meth", out, self.ref(m), "__call__", [], {"degree": r.choice([1, 2, 3])}], kind="measure"):
+                m = out
+        return kind, m
+
+    def integrand(self, M, rank, depth, kind):
+        r = self.rng
+        s = None
+        for _ in range(4):
+            s = self.scalar(M, depth)
+            if s is not None:
+                break
+        if s is None:
+            s = self.call("ufl.as_ufl", 1.0)
+        for which in (["v"] if rank >= 1 else []) + (["u"] if rank == 2 else []):
+            a = M[which]
+            ash = self.shape(a)
+            if ash:
+                a = self.call("operator.getitem", self.ref(a), ["t"] + [r.randrange(n) for n in ash])
+            if a is None:
+                return None
+            if r.random() < 0.2:
+                ga = self.call("ufl.grad", self.ref(a))
+                if ga is not None:
+                    a2 = self.call("operator.getitem", self.ref(ga), 0)
+                    a = a2 if a2 is not None else a
+            s = self.call("operator.mul", self.ref(s), self.ref(a))
+            if s is None:
+                return None
+        if kind == "dS":
+            out = self.new()
+            side = r.choice(["+", "-"])
+            if r.random() < 0.3:
+                s2 = self.call("ufl." + r.choice(["avg", "jump"]), self.ref(s))
+                if s2 is not None:
+                    return s2
+            if self.emit(["meth", out, self.ref(s), "__call__", [side]]):
+                return out
+            return None
+        return s
+
+    def form(self, M, rank, depth=3, nint=None):
+        r = self.rng
+        f = None
+        for _ in range(nint or r.randint(1, 3)):
+            kind, m = self.measure(M)
+            if m is None:
+                continue
+            s = self.integrand(M, rank, depth, kind)
+            if s is None:
+                continue
+            self.exprs.append(s)
+            itg = self.call("operator.mul", self.ref(s), self.ref(m), kind="form")
+            if itg is None:
+                continue
+            f = itg if f is None else (self.call("operator.add", self.ref(f), self.ref(itg), kind="form") or f)
+        if f is not None:
+            if r.random() < 0.15:
+                f2 = self.call("operator.mul", r.choice([2.0, -1, 0.5]), self.ref(f), kind="form")
+                f = f2 if f2 is not None else f
+            elif r.random() < 0.1:
+                f2 = self.call("operator.neg", self.ref(f), kind="form")
+                f = f2 if f2 is not None else f
+            self.forms.append((f, rank, self.meshes.index(M)))
+        return f
+
+    def shape_derivative_form(self, M):
+        """Sum of >= 2 derivative(F_i, SpatialCoordinate, v_i): the only route into the
+        coordinate-derivative grouping of group_form_integrals."""
+        r = self.rng
+        vspaces = [s for s in M["spaces"] if tuple(self.obj(s).value_shape) == (M["gdim"],)]
+        if not vspaces:
+            e = self.elem("Lagrange", M["cell"], 1, (M["gdim"],))
+            sp = self.call("ufl.FunctionSpace", self.ref(M["slot"]), self.ref(e), kind="space")
+            if sp is None:
+                return None
+            M["spaces"].append(sp)
+            vspaces = [sp]
+        total = None
+        for _ in range(r.randint(2, 4)):
+            s = self.scalar(M, 2)
+            if s is None:
+                continue
+            kind, m = self.measure(M, kinds=("dx",))
+            if m is None:
+                continue
+            Fi = self.call("operator.mul", self.ref(s), self.ref(m), kind="form")
+            if Fi is None:
+                continue
+            vi = self.call("ufl.Coefficient", self.ref(r.choice(vspaces)), kind="coef")
+            d = self.call("ufl.derivative", self.ref(Fi), self.ref(M["x"]), self.ref(vi), kind="form")
+            if d is None:
+                continue
+            total = d if total is None else (self.call("operator.add", self.ref(total), self.ref(d), kind="form") or total)
+        if total is not None:
+            self.forms.append((total, 0, self.meshes.index(M)))
+        return total
+
+    # ---------------------------------------------------------------- derived forms / algorithms
+    def cfd_options(self):
+        r = self.rng
+        kw = {}
+        mode = r.random()
+        if mode < 0.35:
+            kw = {"do_apply_function_pullbacks": True, "do_apply_integral_scaling": True, "do_apply_geometry_lowering": True}
+            if r.random() < 0.5:
+                kw["preserve_geometry_types"] = ["t", ["fn", "ufl.classes.Jacobian"]]
+            if r.random() < 0.3:
+                kw["do_cancel_jacobian_products"] = True
+        elif mode < 0.5:
+            kw = {}
+        else:
+            for f in CFD_FLAGS:
+                if r.random() < 0.35:
+                    kw[f] = r.random() < 0.6
+        return kw
+
+    def derive(self, fslot, rank, M, keep_failed=False):
+        """Apply one public algorithm / form operator to a form; returns new slot or None."""
+        r = self.rng
+        F = self.ref(fslot)
+        co = M["coefs"]
+        choices = [
+            "expand_derivatives",
+            "preprocessed",
+            "preprocessed",
+            "derivative",
+            "derivative2",
+            "replace",
+            "algebra_lowering",
+            "apply_derivatives_chain",
+            "renumber",
+            "neg",
+            "scale",
+            "add_self",
+            "strip_terminal_data",
+            "expand_indices",
+            "fd_integrals",
+            "coordinate_derivative",
+            "remove_complex",
+            "pickle",
+        ]
+        if rank == 2:
+            choices += ["adjoint", "action", "lhs", "rhs", "system"]
+        if rank == 1:
+            choices += ["rhs", "lhs", "action1"]
+        if rank >= 1:
+            choices += ["extract_blocks"]
+        c = r.choice(choices)
+        kf = keep_failed
+        if c == "expand_derivatives":
+            return self.call("ufl.algorithms.expand_derivatives", F, kind="form", keep_failed=kf)
+        if c == "preprocessed":
+            return self.call("sim.ops.preprocessed_form", F, kind="form", keep_failed=kf, **self.cfd_options())
+        if c == "fd_integrals":
+            fd = self.call("sim.ops.form_data", F, kind="formdata", keep_failed=kf, **self.cfd_options())
+            if fd is None:
+                return None
+            return self.call("sim.ops.fd_integrals_form", self.ref(fd), kind="form", keep_failed=kf)
+        if c == "derivative" and co:
+            u = r.choice(co)
+            if r.random() < 0.5:
+                return self.call("ufl.derivative", F, self.ref(u), kind="form", keep_failed=kf)
+            du = self.call("ufl.Coefficient", self.ref(self._space_of(u)), kind="coef")
+            if du is None:
+                return None
+            return self.call("ufl.derivative", F, self.ref(u), self.ref(du), kind="form", keep_failed=kf)
+        if c == "derivative2" and co:
+            u = r.choice(co)
+            d1 = self.call("ufl.derivative", F, self.ref(u), kind="form", keep_failed=kf)
+            if d1 is None:
+                return None
+            d2 = self.call("ufl.derivative", self.ref(d1), self.ref(r.choice(co)), kind="form", keep_failed=kf)
+            if d2 is None:
+                return d1
+            return self.call("ufl.algorithms.expand_derivatives", self.ref(d2), kind="form", keep_failed=kf) or d2
+        if c == "coordinate_derivative":
+            vsp = [s for s in M["spaces"] if tuple(self.obj(s).value_shape) == (M["gdim"],)]
+            if not vsp:
+                return None
+            vi = self.call("ufl.Coefficient", self.ref(r.choice(vsp)), kind="coef")
+            return self.call("ufl.derivative", F, self.ref(M["x"]), self.ref(vi), kind="form", keep_failed=kf)
+        if c == "replace" and co:
+            u = r.choice(co)
+            w = self.call("ufl.Coefficient", self.ref(self._space_of(u)), kind="coef")
+            if w is None:
+                return None
+            mapping = self.new()
+            if not self.emit(["lit", mapping, ["d", [[self.ref(u), self.ref(w)]]]], kind="mapping"):
+                return None
+            return self.call("ufl.replace", F, self.ref(mapping), kind="form", keep_failed=kf)
+        if c == "algebra_lowering":
+            return self.call("ufl.algorithms.apply_algebra_lowering.apply_algebra_lowering", F, kind="form", keep_failed=kf)
+        if c == "apply_derivatives_chain":
+            a = self.call("ufl.algorithms.apply_algebra_lowering.apply_algebra_lowering", F, kind="form", keep_failed=kf)
+            if a is None:
+                return None
+            b = self.call("ufl.algorithms.apply_derivatives.apply_derivatives", self.ref(a), kind="form", keep_failed=kf)
+            if b is None:
+                return a
+            if r.random() < 0.5:
+                c2 = self.call("ufl.algorithms.apply_integral_scaling.apply_integral_scaling", self.ref(b), kind="form", keep_failed=kf)
+                return c2 or b
+            return b
+        if c == "expand_indices":
+            a = self.call("ufl.algorithms.apply_algebra_lowering.apply_algebra_lowering", F, kind="form", keep_failed=kf)
+            if a is None:
+                return None
+            b = self.call("ufl.algorithms.apply_derivatives.apply_derivatives", self.ref(a), kind="form", keep_failed=kf)
+            if b is None:
+                return a
+            return self.call("ufl.algorithms.expand_indices", self.ref(b), kind="form", keep_failed=kf) or b
+        if c == "renumber":
+            return self.call("ufl.algorithms.renumbering.renumber_indices", F, kind="form", keep_failed=kf)
+        if c == "neg":
+            return self.call("operator.neg", F, kind="form")
+        if c == "scale":
+            return self.call("operator.mul", r.choice([2.0, 3, -0.5]), F, kind="form")
+        if c == "add_self":
+            other = r.choice([f for f in self.forms if f[1] == rank] or [(fslot, rank, 0)])[0]
+            return self.call("operator.add", F, self.ref(other), kind="form", keep_failed=kf)
+        if c == "strip_terminal_data":
+            out = self.new()
+            if not self.emit(["call", out, "ufl.algorithms.strip_terminal_data", [F]], keep_failed=kf, kind="stripped"):
+                return None
+            f2 = self.new()
+            if self.emit(["call", f2, "sim.ops.nth", [self.ref(out), 0]], keep_failed=kf, kind="form") and f2 in self.node.slots:
+                return f2
+            return None
+        if c == "remove_complex":
+            return self.call("ufl.algorithms.remove_complex_nodes.remove_complex_nodes", F, kind="form", keep_failed=kf)
+        if c == "adjoint":
+            return self.call("ufl.adjoint", F, kind="form", keep_failed=kf)
+        if c == "action" and co:
+            cands = [u for u in co if self._space_of(u) == M["V"]]
+            if cands and r.random() < 0.7:
+                return self.call("ufl.action", F, self.ref(r.choice(cands)), kind="form", keep_failed=kf)
+            return self.call("ufl.action", F, kind="form", keep_failed=kf)
+        if c == "action1":
+            return self.call("ufl.action", F, kind="form", keep_failed=kf)
+        if c in ("lhs", "rhs"):
+            return self.call("ufl." + c, F, kind="form", keep_failed=kf)
+        if c == "system":
+            out = self.new()
+            if not self.emit(["call", out, "ufl.system", [F]], keep_failed=kf, kind="tuple"):
+                return None
+            a, b = self.new(), self.new()
+            self.emit(["unpack", None, self.ref(out), [a, b]], keep_failed=kf)
+            for s in (a, b):
+                if s in self.node.slots:
+                    self.info[s] = self.describe(self.node.slots[s], "form")
+            return a if a in self.node.slots and isinstance(self.obj(a), Form) else None
+        if c == "extract_blocks":
+            return self.call("ufl.extract_blocks", F, kind="blocks", keep_failed=kf)
+        if c == "pickle":
+            out = self.new()
+            if self.emit(["roundtrip", out, fslot, "pickle"], kind="form"):
+                return out
+            return None
+        return None
+
+    def _space_of(self, coef_slot):
+        """Slot of the function space a coefficient was built on."""
+        for op in self.ops:
+            if op[0] == "call" and op[1] == coef_slot and op[2] == "ufl.Coefficient":
+                return op[3][0][1]
+        return None
+
+    # ---------------------------------------------------------------- programs
+    def program(self):
+        """A build program: environment, terminals, forms, derived forms."""
+        r = self.rng
+        self.env()
+        nforms = self.cfg.get("n_forms") or r.randint(1, 3)
+        depth = self.cfg.get("depth") or r.choice([2, 3, 3, 4])
+        for _ in range(nforms):
+            M = r.choice(self.meshes)
+            if self.fam.get("shape_derivative") and r.random() < self.fam["shape_derivative"]:
+                self.shape_derivative_form(M)
+            elif self.fam.get("flat_form") and r.random() < self.fam["flat_form"]:
+                self.flat_form(M)
+            else:
+                self.form(M, r.choice([0, 1, 1, 2, 2]), depth)
+        nder = self.cfg.get("n_derived")
+        if nder is None:
+            nder = r.randint(0, 4)
+        for _ in range(nder):
+            if not self.forms:
+                break
+            f, rank, mi = r.choice(self.forms)
+            d = self.derive(f, rank, self.meshes[mi], keep_failed=self.cfg.get("keep_failed", False))
+            if d is not None and d in self.node.slots and isinstance(self.obj(d), Form):
+                try:
+                    rk = len(self.obj(d).arguments())
+                except BaseException:  # noqa: B036
+                    continue
+                self.derived.append((d, rk, mi))
+                if r.random() < 0.5:
+                    self.forms.append((d, rk, mi))
+        return self.result()
+
+    def flat_form(self, M):
+        """A form whose integrand is (mostly) a flat commutative expression."""
+        r = self.rng
+        e = self.flat(M)
+        if e is None:
+            return self.form(M, 0, 2)
+        rank = r.choice([0, 0, 1])
+        if rank == 1:
+            a = M["v"]
+            ash = self.shape(a)
+            if ash:
+                a = self.call("operator.getitem", self.ref(a), ["t"] + [0] * len(ash))
+            e2 = self.call("operator.mul", self.ref(e), self.ref(a)) if a is not None else None
+            if e2 is None:
+                rank = 0
+            else:
+                e = e2
+        elif r.random() < 0.5 and M["coefs"]:
+            c = [c for c in M["coefs"] if self.shape(c) == ()]
+            if c:
+                e = self.call("operator.mul", self.ref(e), self.ref(r.choice(c))) or e
+        kind, m = self.measure(M, kinds=("dx", "dx", "ds"))
+        if m is None:
+            return None
+        f = self.call("operator.mul", self.ref(e), self.ref(m), kind="form")
+        if f is not None:
+            self.exprs.append(e)
+            self.forms.append((f, rank, self.meshes.index(M)))
+        return f
+
+    def result(self):
+        return {
+            "ops": self.ops,
+            "info": {str(k): v for k, v in self.info.items()},
+            "forms": [list(f) for f in self.forms],
+            "derived": [list(f) for f in self.derived],
+            "exprs": self.exprs,
+            "meshes": [
+                {"slot": M["slot"], "coefs": M["coefs"], "consts": M["consts"], "geos": M["geos"], "spaces": M["spaces"], "V": M.get("V"), "v": M.get("v"), "u": M.get("u"), "x": M.get("x"), "gdim": M["gdim"]}
+                for M in self.meshes
+            ],
+            "next": self.next,
+            "stats": self.stats,
+        }
+
+
+def xop_plan(node, op):
+    """['plan', None, {'kind':..., 'seed':..., 'cfg':{...}}] -> program dict."""
+    spec = op[2]
+    p = Planner(spec["seed"], spec.get("cfg", {}), node.repo)
+    kind = spec.get("kind", "program")
+    if kind == "program":
+        return p.program()
+    raise simops.Skip("plan-kind")
